@@ -22,12 +22,16 @@ Proof. exact merge_keeps_text. Qed.
 Print Assumptions C20_merge_keeps_text.
 
 (* every run's text is present exactly once: blanks in front, opening markers, the core with its metacharacters
-   escaped, closing markers, blanks behind - and the three pieces are the run's text *)
+   escaped, closing markers, blanks behind - and the three pieces are the run's text.  The core is escaped with
+   backslashes, except that the final tilde of a struck-through run is the character reference &#126; (repair 6556858:
+   the reader does not take ~~ for a closing marker behind a tilde, even an escaped one) *)
 Theorem C20_run_text_once :
-  forall o r, w_code r = false -> all_space (chars (w_text r)) = false ->
-  exists lead core trail opening closing,
-    format_run o r = (str lead ++ opening ++ str (escape_chars core) ++ closing ++ str trail)%string /\
-    lead ++ core ++ trail = chars (w_text r) /\ unescape_chars (escape_chars core) = core.
+  forall o r, emph_ok o -> w_code r = false -> all_space (chars (w_text r)) = false ->
+  exists lead core trail opening closing enc,
+    format_run o r = (str lead ++ opening ++ str enc ++ closing ++ str trail)%string /\
+    lead ++ core ++ trail = chars (w_text r) /\ unescape_chars (escape_chars core) = core /\
+    (enc = escape_chars core \/
+     (w_strike r = true /\ exists core', core = core' ++ [tilde] /\ enc = escape_chars core' ++ tilde_ref)).
 Proof. exact format_run_keeps_text. Qed.
 Print Assumptions C20_run_text_once.
 
